@@ -47,6 +47,8 @@ type Frame struct {
 	ct     *Contract                // contract being verified when this is the top frame
 	unroll int                      // loop header visits on this path (unrolling guard)
 	visits map[*ssa.BasicBlock]int  // bounded runs: visits of each loop header since its loop was entered
+	rangeAlias map[*ssa.BasicBlock]bool // counting loops whose variable is also visible as rangeindex+1
+	forked map[*ssa.BasicBlock]bool // bounded runs: loops (by header) inside which a symbolic branch was forked
 	skipHeader *ssa.BasicBlock      // header whose loop-cut processing was just done
 	preSt  []*State                 // states at entry of the cut loops (innermost last)
 	preFr  []*Frame
@@ -71,6 +73,13 @@ func (f *Frame) clone() *Frame {
 		n.visits = make(map[*ssa.BasicBlock]int, len(f.visits))
 		for k, v := range f.visits {
 			n.visits[k] = v
+		}
+	}
+	n.rangeAlias = f.rangeAlias
+	if f.forked != nil {
+		n.forked = make(map[*ssa.BasicBlock]bool, len(f.forked))
+		for k, v := range f.forked {
+			n.forked[k] = v
 		}
 	}
 	if f.loops != nil {
@@ -1145,6 +1154,11 @@ func (x *Exec) externalCall(st *State, name string, sig *types.Signature, args [
 	snap := make([]Value, len(args))
 	for i, a := range args {
 		snap[i] = a
+		if x.noModular {
+			// bounded equivalence runs compare everything the callee can see, at the time of the call
+			snap[i] = x.deepSnap(st, a, 6, map[*Cell]bool{})
+			continue
+		}
 		if ifc, isI := a.(*Iface); isI && ifc.dyn != nil {
 			a = ifc.val
 		}
@@ -1556,7 +1570,12 @@ func (x *Exec) runInstrs(st *State, fr *Frame, b *ssa.BasicBlock, idx int, prev 
 			st.log = append(st.log, Event{kind: "send", args: []Value{x.val(fr, in.Chan), x.val(fr, in.X)}})
 			st.version++
 		case *ssa.Go:
-			st.log = append(st.log, Event{kind: "go", args: nil})
+			var gargs []Value
+			if x.noModular {
+				// bounded equivalence runs: which function is started, with what
+				gargs = x.callDescr(st, fr, &in.Call)
+			}
+			st.log = append(st.log, Event{kind: "go", args: gargs})
 			st.version++
 		case *ssa.Defer:
 			fr.defers = append(fr.defers, in)
@@ -1577,6 +1596,23 @@ func (x *Exec) runInstrs(st *State, fr *Frame, b *ssa.BasicBlock, idx int, prev 
 		case *ssa.RunDefers:
 			for k := len(fr.defers) - 1; k >= 0; k-- {
 				d := fr.defers[k]
+				if x.noModular {
+					var dargs []Value
+					if fn, ok := d.Call.Value.(*ssa.Function); ok && !d.Call.IsInvoke() {
+						dargs = append(dargs, &Func{fn: fn})
+					}
+					if k < len(fr.dregs) {
+						for _, a := range fr.dregs[k] {
+							dargs = append(dargs, x.deepSnap(st, a, 6, map[*Cell]bool{}))
+						}
+					}
+					name := "deferred"
+					if d.Call.IsInvoke() {
+						name += ":" + d.Call.Method.Name()
+					}
+					st.log = append(st.log, Event{kind: name, args: dargs})
+					continue
+				}
 				st.log = append(st.log, Event{kind: "deferred:" + d.Call.String()})
 			}
 			fr.defers = nil
@@ -1641,13 +1677,10 @@ func (x *Exec) runInstrs(st *State, fr *Frame, b *ssa.BasicBlock, idx int, prev 
 			fr2 := fr.clone()
 			st1.assume(c)
 			st2.assume(mkNot(c))
-			var res []Out
-			if x.boundedStay(fr, b, 0) {
-				res = x.run(st1, fr, b.Succs[0], 0, b)
-			}
-			if x.boundedStay(fr2, b, 1) {
-				res = append(res, x.run(st2, fr2, b.Succs[1], 0, b)...)
-			}
+			x.boundedFork(fr, b)
+			x.boundedFork(fr2, b)
+			res := x.run(st1, fr, b.Succs[0], 0, b)
+			res = append(res, x.run(st2, fr2, b.Succs[1], 0, b)...)
 			return nil, nil, nil, res, true
 		case *ssa.Jump:
 			return st, b.Succs[0], b, nil, false
@@ -2050,4 +2083,20 @@ func (x *Exec) infeasible(st *State, c *Term) bool {
 	r := solveQuery(asserts, nil, "", 3*time.Second, false)
 	x.pruneQueries++
 	return r.status == "unsat"
+}
+
+// callDescr: the callee (as a function value) and the argument values of a go statement.
+func (x *Exec) callDescr(st *State, fr *Frame, c *ssa.CallCommon) []Value {
+	var out []Value
+	if c.IsInvoke() {
+		out = append(out, &Str{s: c.Method.Name()}, x.val(fr, c.Value))
+	} else if fn, ok := c.Value.(*ssa.Function); ok {
+		out = append(out, &Func{fn: fn})
+	} else if _, ok := c.Value.(*ssa.Builtin); !ok {
+		out = append(out, x.val(fr, c.Value))
+	}
+	for _, a := range c.Args {
+		out = append(out, x.deepSnap(st, x.val(fr, a), 6, map[*Cell]bool{}))
+	}
+	return out
 }
